@@ -72,7 +72,7 @@ int pem_read(FILE *fp, const char *name, uint8_t *data, size_t *datalen, size_t 
 	char line[80];
 	char begin_line[80];
 	char end_line[80];
-	uint8_t buf[80]; // one line of at most 79 characters decodes to less than 64 bytes
+	uint8_t buf[192]; // up to 63 buffered + 79 new characters per call decode to at most 105 bytes (+2 padding bytes)
 	int len;
 	BASE64_CTX ctx;
 
